@@ -13,6 +13,9 @@ EXPLANATION = (
     "forward traversal (no rev/rposition/sort/next_back in the iterator chain); O3 dead-code elimination truncates a block after its "
     "first terminator, found by a forward scan."
 )
+EXPLANATION += (  # round-3 supplement
+    " O5 multiplicity: once-children before the generated loop header, per-iteration children inside the loop. O6 children are visited by traversing the AST node's own list, never by lookup."
+)
 ASSUMPTIONS = [
     "each call of Lowerer::expr appends the code of that sub-expression to the current block (emission order = visit order)",
     "the back end (lir lowering, cranelift) preserves the order of instructions within a block",
